@@ -142,6 +142,78 @@ def _remap_refs(obj, f):
             _remap_refs(x, f)
 
 
+PURE_CLS = {"IntegerLiteral", "CharacterLiteral", "FloatingLiteral", "StringLiteral", "DeclRefExpr", "ImplicitCastExpr", "CStyleCastExpr", "ParenExpr", "MemberExpr",
+            "ArraySubscriptExpr", "UnaryExprOrTypeTraitExpr", "ConstantExpr"}
+
+
+def _expression_helper(h):
+    """The helper is `return <side-effect-free expression>;` and nothing else: (body block, index of the value element)."""
+    hexit = h.get("exit")
+    body = [b for b in h["blocks"] if b["id"] != hexit and b["elems"]]
+    if len(body) != 1 or any(len(b.get("succs") or []) > 1 for b in h["blocks"]):
+        return None
+    els = body[0]["elems"]
+    if not els or els[-1].get("cls") != "ReturnStmt" or not els[-1].get("kids") or els[-1]["kids"][0] is None:
+        return None
+    for e in els[:-1]:
+        c = e.get("cls")
+        if c in PURE_CLS:
+            continue
+        if c == "BinaryOperator" and e.get("op") not in ("=", ",") and not str(e.get("op", "")).endswith("=") or (c == "BinaryOperator" and e.get("op") in ("==", "!=", "<=", ">=")):
+            continue
+        if c == "UnaryOperator" and e.get("op") in ("-", "~", "!", "+", "*", "&"):
+            continue
+        return None
+    if any(r is not None and r[0] != body[0]["id"] for e in els for r in (e.get("kids") or [])):
+        return None
+    return body[0], els[-1]["kids"][0][1]
+
+
+def _inline_expression(fn, B, blk, idx, h, body, vidx, args, pids):
+    """Splice the helper's expression into the caller's block in place of the call (no new blocks)."""
+    els = copy.deepcopy(body["elems"][:-1])
+    n = len(els)
+    call = B["elems"][idx]
+    cast_of = {}
+    for i, e in enumerate(body["elems"][:-1]):
+        if e.get("cls") == "ImplicitCastExpr" and e.get("op") == "LValueToRValue" and e.get("kids") and e["kids"][0] is not None:
+            k = body["elems"][e["kids"][0][1]]
+            if k.get("cls") == "DeclRefExpr" and (k.get("decl") or {}).get("kind") == "param" and k["decl"].get("id") in pids:
+                cast_of[i] = k["decl"]["id"]
+    # a parameter used other than by reading it: not an expression helper after all
+    for i, e in enumerate(body["elems"][:-1]):
+        if e.get("cls") == "DeclRefExpr" and (e.get("decl") or {}).get("kind") == "param":
+            users = [x for x in body["elems"] if any(r is not None and r[1] == i for r in (x.get("kids") or []))]
+            if not (len(users) == 1 and users[0].get("cls") == "ImplicitCastExpr" and users[0].get("op") == "LValueToRValue"):
+                return False
+
+    def caller_map(r):
+        if r[0] == blk and r[1] >= idx:
+            return [blk, r[1] + n]
+        return r
+    for b in fn["blocks"]:
+        _remap_refs(b["elems"], caller_map)
+        if b.get("term"):
+            _remap_refs(b["term"], caller_map)
+    args = [caller_map(list(a)) for a in args]
+
+    def callee_ref(r):
+        if r[1] in cast_of:
+            return list(args[pids[cast_of[r[1]]]])
+        return [blk, idx + r[1]]
+    _remap_refs(els, callee_ref)
+    cline = call.get("iline") or _line(call)
+    for e in els:
+        e["inlined"] = h["name"]
+        e["iline"] = cline
+    value = callee_ref([body["id"], vidx])
+    wrapper = {"cls": "ImplicitCastExpr", "op": "NoOp", "kids": [value], "ty": call.get("ty"), "loc": call.get("loc", ""), "text": call.get("text", ""), "inlined": h["name"]}
+    if call.get("iline"):
+        wrapper["iline"] = call["iline"]
+    B["elems"] = B["elems"][:idx] + els + [wrapper] + B["elems"][idx + 1:]
+    return True
+
+
 def _inline_one(fn, blk, idx, h, serial, repo):
     """Replace the call fn.blocks[blk].elems[idx] of helper h by a copy of h.  Returns True when done."""
     B = next(b for b in fn["blocks"] if b["id"] == blk)
@@ -149,6 +221,10 @@ def _inline_one(fn, blk, idx, h, serial, repo):
     args = call["kids"][1:]
     if len(args) != len(h.get("params", [])) or any(a is None for a in args):
         return False
+    xh = _expression_helper(h)
+    if xh is not None:
+        if _inline_expression(fn, B, blk, idx, h, xh[0], xh[1], args, {p["id"]: k for k, p in enumerate(h["params"])}):
+            return True
     maxid = max(b["id"] for b in fn["blocks"])
     b2id = maxid + 1
     base = maxid + 2
@@ -309,7 +385,7 @@ def apply(facts, repo):
     # helpers first (so that a helper that calls another helper is complete when it is copied), then everything else
     order = [f for f in facts["functions"] if f["name"] in hs] + [f for f in facts["functions"] if f["name"] not in hs]
     for fn in order:
-        for _ in range(64):
+        for _ in range(4000):
             site = None
             for b, i, e in _all_elems(fn):
                 n, _id = _callee_of(fn, e)
